@@ -2217,6 +2217,9 @@ func genC07(rec *lib.Rec, r *lib.Rng, thorough bool) {
 	for i := 0; i < n/Shards/2; i++ {
 		rec.Op("M", "rpcq script "+outboundScript(r, 4+r.Intn(18)), true)
 	}
+	for i := 0; i < n/Shards/4; i++ {
+		rec.Op("M", "rpcgen sched "+importGenSchedule(r, 3+r.Intn(12)), true)
+	}
 }
 
 func genC08(rec *lib.Rec, r *lib.Rng, thorough bool) {
